@@ -59,8 +59,6 @@ theorem norm_mant (N a : Nat) (ha : a ≠ 0) (hL : bitLen a ≤ N) :
     simp [this]
   · exact key
 
-theorem flipIf_flipIf_pos (b : Bool) (f : Flag) : Flag.flipIf f b = Flag.flipIf f b := rfl
-
 /-- magnitude and sign assembled: what every branch has to produce -/
 def attachSign (F : Ieee) (sign : Nat) (r : Nat × Flag) : Nat × Flag :=
   (sign * 2 ^ (F.EB + F.MB) + r.1, r.2.flipIf (decide (sign > 0)))
